@@ -1,5 +1,252 @@
 import GateModel.C29.Lemmas
+/-
+C29 — Lite routes the first route whose host pattern matches the cleaned host.
+
+Property theorems only (helper lemmas live in `Lemmas.lean`).  `lower : Bytes → Str` (Go's
+`strings.ToLower`: raw bytes to lower-cased runes) and `enc : Str → Bytes` (runes back to UTF-8) are
+arbitrary parameters.  Clauses of the property and where they are proved:
+
+  cleaned host                      clear_host_cut, clear_host_trim
+  `*` any sequence, `?` exactly one regex_of_glob, match_eq_glob, glob_sound, glob_complete, glob_match_iff
+  the text each wildcard matched    glob_sound + glob_lazy_leftmost (which decomposition when several exist)
+  compared case-insensitively       match_eq_glob (both sides go through `lower`)
+  first route in configuration order first_match, no_match, route_spec
+  $1, $2 … replaced by those texts  substitute_tokens, substitute_no_groups, route_spec
+  no match ⇒ closed without dialing no_match_no_dial, dial_implies_match
+  tie to the source                 src_regex_literals, src_separators, src_call_shapes
+  the two defects repaired          wildcard_newline_fails / defective_match_partial,
+                                    substituteDefective_fails / substituteDefective_partial
+-/
 namespace Gate.C29.Props
 open Gate Gate.C29
-theorem placeholder : True := trivial
+
+/-! ### the regular expression built from a glob pattern denotes the glob -/
+
+/-- For every pattern text the expression assembled by `QuoteMeta` + the two `ReplaceAll` calls + anchors parses
+    (as Go's regexp syntax, restricted to the class that occurs) to exactly the pattern's element sequence:
+    `?` ↦ one-character group, `*` ↦ lazy any-sequence group, every other character — regex metacharacters
+    included — a literal.  In particular compilation never fails. -/
+theorem regex_of_glob (dotAll : Bool) (pattern : Str) :
+    parseRx (globToRegex dotAll pattern) = some (dotAll, elems pattern) := parseRx_globToRegex dotAll pattern
+
+/-- `matchWithGroups` (repaired) is the direct glob matcher on the lower-cased pattern and host. -/
+theorem match_eq_glob (lower : Bytes → Str) (s pattern : Bytes) :
+    matchWithGroups lower true s pattern = globMatch (lower pattern) (lower s) := by
+  unfold matchWithGroups globMatch
+  rw [regex_of_glob]
+  exact rxMatch_congr _ _ _ _ (fun c _ => by simp [dotOk])
+
+/-- soundness: the returned texts instantiate the pattern to the host (one text per wildcard, a single
+    character for each `?`). -/
+theorem glob_sound (pattern host : Str) (gs : Groups) (h : globMatch pattern host = some gs) :
+    inst (elems pattern) gs = some host := rxMatch_sound _ _ _ _ h
+
+/-- completeness: if any assignment of texts to the wildcards yields the host, the matcher matches —
+    for every host, newlines and control characters included. -/
+theorem glob_complete (pattern host : Str) (gs : Groups) (h : inst (elems pattern) gs = some host) :
+    (globMatch pattern host).isSome := rxMatch_complete _ _ _ h
+
+theorem glob_match_iff (pattern host : Str) :
+    (globMatch pattern host).isSome ↔ ∃ gs, inst (elems pattern) gs = some host := by
+  constructor
+  · intro h
+    cases hm : globMatch pattern host with
+    | none => simp [hm] at h
+    | some gs => exact ⟨gs, glob_sound _ _ _ hm⟩
+  · rintro ⟨gs, h⟩; exact glob_complete _ _ _ h
+
+/-- which decomposition is returned when several exist: the lazy-leftmost one — the vector of `*` text
+    lengths is lexicographically least among all decompositions. -/
+theorem glob_lazy_leftmost (pattern host : Str) (gs gs' : Groups)
+    (h : globMatch pattern host = some gs) (h' : inst (elems pattern) gs' = some host) :
+    lexLe (starLens (elems pattern) gs) (starLens (elems pattern) gs') := rxMatch_minimal _ _ _ _ h h'
+
+/-- the boolean reference matcher used as oracle by the driver decides exactly the glob semantics -/
+theorem reference_accepts_iff (pattern host : Str) :
+    globAccepts (elems pattern) host = true ↔ ∃ gs, inst (elems pattern) gs = some host := by
+  rw [globAccepts_eq]; exact glob_match_iff pattern host
+
+example : globMatch "*.example.*".toList "abc.example.com".toList = some ["abc".toList, "com".toList] := by decide
+example : inst (elems "a?c*".toList) ["b".toList, "\n$1".toList] = some "abc\n$1".toList := by decide
+
+/-! ### first match in configuration order -/
+
+/-- `FindRouteWithGroups` returns (i, j, pattern, groups) iff pattern j of route i matches with those groups and
+    no earlier pattern of route i and no pattern of an earlier route matches. -/
+theorem first_match (m : Bytes → Option Groups) (routes : List Route) (i j : Nat) (p : Bytes) (gs : Groups) :
+    findRouteWithGroups m routes = some (i, j, p, gs) ↔ IsFirstMatch m routes i j p gs := by
+  unfold findRouteWithGroups
+  rw [findRouteFrom_some]
+  constructor
+  · rintro ⟨k, hk, h⟩; simp only [Nat.zero_add] at hk; subst hk; exact h
+  · intro h; exact ⟨i, by omega, h⟩
+
+theorem no_match (m : Bytes → Option Groups) (routes : List Route) :
+    findRouteWithGroups m routes = none ↔ ∀ r ∈ routes, ∀ q ∈ r.hosts, m q = none :=
+  findRouteFrom_none m 0 routes
+
+/-- "`q` matches the cleaned host" in the property's terms: glob semantics on the lower-cased texts -/
+def Matches (lower : Bytes → Str) (raw q : Bytes) : Prop :=
+  ∃ gs, inst (elems (lower q)) gs = some (lower (clearHost raw))
+
+theorem matches_iff (lower : Bytes → Str) (raw q : Bytes) :
+    (matchWithGroups lower true (clearHost raw) q).isSome ↔ Matches lower raw q := by
+  rw [match_eq_glob]; exact glob_match_iff _ _
+
+/-- The whole route decision in the property's terms.  If `findRoute` yields candidates for route `i` via
+    pattern `p`, then `p` is host pattern `j` of route `i`, it glob-matches the cleaned, lower-cased host with
+    the lazy-leftmost texts `gs`, no earlier pattern (same route) and no pattern of an earlier route matches,
+    and the candidates are the route's backends with `gs` substituted. -/
+theorem route_spec (lower : Bytes → Str) (enc : Str → Bytes) (subst : List Bytes → Bytes → Bytes)
+    (routes : List Route) (raw : Bytes) (i : Nat) (p : Bytes) (bs : List Bytes)
+    (h : findRoute lower enc true subst routes raw = .candidates i p bs) :
+    ∃ (r : Route) (j : Nat) (gs : Groups), routes[i]? = some r ∧ r.hosts[j]? = some p ∧
+      inst (elems (lower p)) gs = some (lower (clearHost raw)) ∧
+      (∀ gs', inst (elems (lower p)) gs' = some (lower (clearHost raw)) →
+        lexLe (starLens (elems (lower p)) gs) (starLens (elems (lower p)) gs')) ∧
+      (∀ j' < j, ∀ q, r.hosts[j']? = some q → ¬ Matches lower raw q) ∧
+      (∀ i' < i, ∀ r', routes[i']? = some r' → ∀ q ∈ r'.hosts, ¬ Matches lower raw q) ∧
+      bs = r.backends.map (subst (gs.map enc)) := by
+  unfold findRoute at h
+  simp only [] at h
+  cases hf : findRouteWithGroups (fun p => matchWithGroups lower true (clearHost raw) p) routes with
+  | none => simp [hf] at h
+  | some v =>
+    obtain ⟨i0, j0, p0, gs0⟩ := v
+    obtain ⟨r, hr, hj, hm, hlt, hprev⟩ := (first_match _ _ _ _ _ _).mp hf
+    simp only [hf, hr] at h
+    by_cases hb : r.backends.isEmpty = true
+    · simp [hb] at h
+    · simp only [hb, Bool.false_eq_true, if_false, RouteResult.candidates.injEq] at h
+      obtain ⟨rfl, rfl, rfl⟩ := h
+      have hm' : globMatch (lower p0) (lower (clearHost raw)) = some gs0 := by rw [← match_eq_glob]; exact hm
+      have none_not : ∀ q, matchWithGroups lower true (clearHost raw) q = none → ¬ Matches lower raw q := by
+        intro q hq hmq
+        have := (matches_iff lower raw q).mpr hmq
+        rw [hq] at this; cases this
+      exact ⟨r, j0, gs0, hr, hj, glob_sound _ _ _ hm', fun gs' hg => glob_lazy_leftmost _ _ _ _ hm' hg,
+        fun j' hj' q hq => none_not q (hlt j' hj' q hq),
+        fun i' hi' r' hr' q hq => none_not q (hprev i' hi' r' hr' q hq), rfl⟩
+
+/-- A host matching no route gets no route: the result is the "no route" error and nothing can be dialled. -/
+theorem no_match_no_dial (lower : Bytes → Str) (enc : Str → Bytes) (subst : List Bytes → Bytes → Bytes)
+    (routes : List Route) (raw : Bytes)
+    (h : ∀ r ∈ routes, ∀ q ∈ r.hosts, ¬ Matches lower raw q) :
+    findRoute lower enc true subst routes raw = .noRoute ∧
+    (findRoute lower enc true subst routes raw).dialList = [] := by
+  have hn : findRouteWithGroups (fun p => matchWithGroups lower true (clearHost raw) p) routes = none := by
+    rw [no_match]
+    intro r hr q hq
+    cases hm : matchWithGroups lower true (clearHost raw) q with
+    | none => rfl
+    | some gs => exact absurd ((matches_iff lower raw q).mp (by simp [hm])) (h r hr q hq)
+  have : findRoute lower enc true subst routes raw = .noRoute := by
+    unfold findRoute; simp [hn]
+  exact ⟨this, by rw [this]; rfl⟩
+
+/-- conversely every address that can be dialled comes from a route with a matching pattern -/
+theorem dial_implies_match (lower : Bytes → Str) (enc : Str → Bytes) (subst : List Bytes → Bytes → Bytes)
+    (routes : List Route) (raw : Bytes) (b : Bytes)
+    (h : b ∈ (findRoute lower enc true subst routes raw).dialList) :
+    ∃ r ∈ routes, ∃ q ∈ r.hosts, Matches lower raw q := by
+  cases hr : findRoute lower enc true subst routes raw with
+  | noRoute => simp [hr, RouteResult.dialList] at h
+  | noBackend i p => simp [hr, RouteResult.dialList] at h
+  | candidates i p bs =>
+    obtain ⟨r, j, gs, h1, h2, h3, _⟩ := route_spec lower enc subst routes raw i p bs hr
+    exact ⟨r, List.mem_of_getElem? h1, p, List.mem_of_getElem? h2, gs, h3⟩
+
+/-! ### cleaned host -/
+
+/-- Forge / TCPShield suffix removal: the kept text is everything before the first separator, and no separator
+    starts inside it. -/
+theorem clear_host_cut (sep s : Bytes) :
+    (∃ rest, s = beforeFirst sep s ++ rest ∧ (rest = [] ∨ sep.isPrefixOf rest = true)) ∧
+    (∀ k, k < (beforeFirst sep s).length → sep.isPrefixOf (s.drop k) = false) :=
+  ⟨beforeFirst_split sep s, beforeFirst_no_sep sep s⟩
+
+/-- surrounding dots: the cleaned host is the cut text minus leading and trailing dots, and has none left -/
+theorem clear_host_trim (raw : Bytes) :
+    ∃ a b, beforeFirst tcpShieldSep (beforeFirst forgeSep raw) = a ++ clearHost raw ++ b ∧
+      (∀ x ∈ a, x = dotByte) ∧ (∀ x ∈ b, x = dotByte) ∧
+      (clearHost raw).head? ≠ some dotByte ∧ (clearHost raw).getLast? ≠ some dotByte :=
+  trim_spec dotByte _
+
+example : clearHost ([46, 97, 46, 98, 46, 46, 0, 70, 77, 76, 0]) = [97, 46, 98] := by decide
+example : clearHost ([97, 47, 47, 47, 49, 46, 50]) = [97] := by decide
+
+/-! ### parameter substitution -/
+
+/-- a template written as literal bytes (none of them `$`) and references `$k` (`1 ≤ k ≤ n`, none directly
+    followed by a literal digit) expands to its literals and the referenced groups — whatever the groups
+    contain (`$`, digits, nothing): inserted text is never scanned again. -/
+theorem substitute_tokens (groups : List Bytes) (toks : List Tok) (hne : groups ≠ [])
+    (hu : unambiguous groups.length toks = true) :
+    substituteBytes groups (renderToks toks) = expandToks groups toks := by
+  unfold substituteBytes substitute
+  have : groups.isEmpty = false := by cases groups <;> simp_all
+  simp only [this, Bool.false_eq_true, if_false]
+  exact scan_tokens groups toks hu
+
+theorem substitute_no_groups (template : Bytes) : substituteBytes [] template = template := rfl
+
+example : unambiguous 2 [.ref 2, .lit 45, .ref 1] = true ∧
+    renderToks [.ref 2, .lit 45, .ref 1] = [36, 50, 45, 36, 49] ∧
+    substituteBytes [[120], [36, 49]] [36, 50, 45, 36, 49] = [36, 49, 45, 120] := by decide
+
+/-! ### tie to the source: facts regenerated by `tools/gofacts` -/
+
+open Gate.Gen.C29 in
+/-- the string literals of the regex builder, in source order, are the ones `globToRegex true` uses -/
+theorem src_regex_literals :
+    regexLits = ["(?s)^", "\\?", "(.)", "$", "\\*", "(.*?)"] := by decide
+
+theorem src_separators : forgeSep = [0] ∧ tcpShieldSep = [47, 47, 47] ∧
+    Gate.Gen.C29.clearVirtualHostLits = ["."] := by decide
+
+def before (a b : String) (cs : List String) : Bool := cs.idxOf a < cs.idxOf b && cs.idxOf b < cs.length
+
+open Gate.Gen.C29 in
+theorem src_call_shapes :
+    clearVirtualHostCalls = ["strings.Split", "strings.Split", "strings.Trim", "return"] ∧
+    before "strings.ToLower" "compiledRegexCache.Get" getRegexpCalls ∧
+    before "getRegexp" "strings.ToLower" matchWithGroupsCalls ∧
+    before "strings.ToLower" "reg.FindStringSubmatch" matchWithGroupsCalls ∧
+    "matchWithGroups" ∈ findRouteWithGroupsCalls ∧
+    before "ClearVirtualHost" "FindRouteWithGroups" findRouteCalls ∧
+    before "FindRouteWithGroups" "substituteBackendParams" findRouteCalls ∧
+    before "substituteBackendParams" "strategyManager.GetNextBackend" findRouteCalls ∧
+    before "findRoute" "tryBackends" forwardCalls ∧ before "findRoute" "dialRoute" forwardCalls ∧
+    "strings.NewReplacer().Replace" ∈ substituteCalls ∧ "strings.ReplaceAll" ∉ substituteCalls ∧
+    substituteLits = ["$"] := by decide
+
+/-! ### the two defects that were repaired, kept as kernel-checked witnesses -/
+
+/-- before the fix (`.` without `(?s)`): the glob `*` does not match `a\nb` although glob semantics accepts it -/
+theorem wildcard_newline_fails :
+    ¬ (∀ pattern host : Str, globAccepts (elems pattern) host = true →
+        (rxMatch (dotOk false) (elems pattern) host).isSome) := by
+  intro h
+  have := h ['*'] ['a', '\n', 'b'] (by decide)
+  revert this; decide
+
+/-- … and is correct on every host without a newline -/
+theorem defective_match_partial (lower : Bytes → Str) (s pattern : Bytes) (h : '\n' ∉ lower s) :
+    matchWithGroups lower false s pattern = matchWithGroups lower true s pattern := by
+  unfold matchWithGroups
+  rw [regex_of_glob, regex_of_glob]
+  apply rxMatch_congr
+  intro c hc
+  have : c ≠ '\n' := fun e => h (e ▸ hc)
+  simp [dotOk, this]
+
+/-- before the fix (sequential `ReplaceAll` from `$n` down to `$1`): `$2-$1` with groups `x`, `$1` gave `x-x` -/
+theorem substituteDefective_fails :
+    substituteDefectiveBytes [[120], [36, 49]] (renderToks [.ref 2, .lit 45, .ref 1])
+      ≠ expandToks [[120], [36, 49]] [.ref 2, .lit 45, .ref 1] := by decide
+
+/-- … and coincides with the single pass when there is one group -/
+theorem substituteDefective_partial (g template : Bytes) :
+    substituteDefectiveBytes [g] template = substituteBytes [g] template := rfl
+
 end Gate.C29.Props
